@@ -26,7 +26,9 @@ CONSTANTS
     OpNames,     \* op alphabet of free bodies
     Bundles,     \* trigger bundles usable by reg / once
     Modes,       \* reactor modes usable by reg
-    MaxOps,      \* ops per body / driver step
+    MaxOps,      \* ops per driver step
+    BodyOps,     \* ops per body (0: bodies issue nothing - programs are driver sequences only)
+    FinalStep,   \* "" or a step kind ("gc", "poll", "clear") that ends every behaviour
     Budget,      \* total ops over the behaviour (after the init step)
     MaxSteps,    \* driver steps (including the init step)
     InitOps,     \* ops of the first driver step
@@ -544,7 +546,7 @@ FreeOp(x, cur, go(_)) ==
     \/ "wadd" \in OpNames /\ \E i \in 1..NW, b \in Bundles : (\A j \in DOMAIN b : <<WSysC(i), b[j]>> \notin x.regd) /\ Len(b) > 0 /\ go(<<"wadd", i, b>>)
     \/ "wrem" \in OpNames /\ \E i \in 1..NW, b \in Bundles : Len(b) > 0 /\ go(<<"wrem", i, b>>)
     \/ "wrun" \in OpNames /\ \E i \in 1..NW : go(<<"wrun", i>>)
-    \/ "eadd" \in OpNames /\ NER > 0 /\ cur # EWSysC /\ \E e \in Ents, v \in 1..NVal : <<EWSysC, <<"emut", e, 1>>>> \notin x.regd /\ go(<<"eadd", 1, e, v>>)
+    \/ "eadd" \in OpNames /\ NER > 0 /\ cur # EWSysC /\ \E e \in Ents, v \in 1..NVal : go(<<"eadd", 1, e, v>>)
     \/ "erem" \in OpNames /\ NER > 0 /\ cur # EWSysC /\ \E e \in Ents : \E b \in EBundles(e) : go(<<"erem", 1, b>>)
     \/ "setlocal" \in OpNames /\ NER > 0 /\ cur = EWSysC /\ \E v \in 1..NVal : go(<<"setlocal", v>>)
 
@@ -644,7 +646,7 @@ StepBody(fr) ==
          THEN LET sc == ScriptOf(fr.r)
               IN IF Len(fr.ops) < Len(sc.ops) THEN Emit(RBodyOp(w, fr, sc.ops[Len(fr.ops) + 1]))
                  ELSE Emit(RBodyEnd(w, fr, sc.err))
-         ELSE \/ /\ Len(fr.ops) < MaxOps /\ w.budget > 0
+         ELSE \/ /\ Len(fr.ops) < BodyOps /\ w.budget > 0
                  /\ FreeOp(w, fr.s, LAMBDA op : Emit(RBodyOp(w, fr, op)))
               \/ \E err \in (IF "err" \in Features THEN {FALSE, TRUE} ELSE {FALSE}) : Emit(RBodyEnd(w, fr, err))
 
@@ -691,8 +693,13 @@ StepIdle ==
                  [] st.kind = "clear" -> LET p == GcPoll(PushF(x, [DFrame(<<>>) EXCEPT !.pc = "wait", !.clear = TRUE]), << DrvRec(x, "clear") >>) IN Emit(p)
     ELSE /\ w.step < MaxSteps
          /\ LET x == [w EXCEPT !.step = @ + 1]
+                xf == [w EXCEPT !.step = MaxSteps]       \* the final step ends the behaviour
             IN IF w.step = 0 /\ Len(InitOps) > 0
                THEN Emit([w |-> PushF(x, DFrame(InitOps)), out |-> << DrvRec(x, "ops") >>])
+               ELSE IF FinalStep # "" /\ (w.step = MaxSteps - 1 \/ w.budget = 0)
+               THEN CASE FinalStep = "gc" -> LET g == GcW(xf) IN Emit([w |-> PushF(g.w, [DFrame(<<>>) EXCEPT !.pc = "wait"]), out |-> << DrvRec(xf, "gc") >> \o g.out])
+                      [] FinalStep = "poll" -> Emit(PollOnly(PushF(xf, [DFrame(<<>>) EXCEPT !.pc = "wait"]), << DrvRec(xf, "poll") >>))
+                      [] OTHER -> Emit(GcPoll(PushF(xf, [DFrame(<<>>) EXCEPT !.pc = "wait", !.clear = TRUE]), << DrvRec(xf, "clear") >>))
                ELSE \/ "ops" \in StepKinds /\ w.budget > 0 /\ Emit([w |-> PushF(x, [DFrame(<<>>) EXCEPT !.pc = "free"]), out |-> << DrvRec(x, "ops") >>])
                     \/ "gc" \in StepKinds /\ LET g == GcW(x) IN Emit([w |-> PushF(g.w, [DFrame(<<>>) EXCEPT !.pc = "wait"]), out |-> << DrvRec(x, "gc") >> \o g.out])
                     \/ "poll" \in StepKinds /\ Emit(PollOnly(PushF(x, [DFrame(<<>>) EXCEPT !.pc = "wait"]), << DrvRec(x, "poll") >>))
